@@ -4,8 +4,10 @@ CONSTANTS
   FactStates <- MCFacts
   MaxCycles = {0, 1, 2, 3}
   Flags = {TRUE, FALSE}
+  Modes = {"exec", "fetch"}
+  MaxCalls = 1
   CanCancel = TRUE
 VIEW view
-INVARIANTS TypeOK QuiescentAtNil WithinBudget MaxIsJustified CompleteEnds ErrorsNamed
-PROPERTIES FiresOnlyTrue FiresMaxSalience RetractedStaysOut NoFireAfterCancel
+INVARIANTS TypeOK FetchExact QuiescentAtNil WithinBudget MaxIsJustified CompleteEnds ErrorsNamed
+PROPERTIES FetchPure FreshAtStart FiresOnlyTrue FiresMaxSalience RetractedStaysOut NoFireAfterCancel
 CHECK_DEADLOCK FALSE
